@@ -114,6 +114,8 @@ def single_specs():
         out.append([('page', sel, ['margin:0 1px'], [])])
         out.append([('page', sel, ['margin:0 1px'], [('top-left', ['x:a'])])])
     out.append([('page', ':first', [], [('top-left', ['x:a']), ('bottom-center', ['color:red'])])])
+    # declarations inside a margin box are declarations like any other (white space between the components of a value matters)
+    out.append([('page', '', ['width:calc(1px + 2%)'], [('top-left', ['width:calc(1px + 2%)', 'margin:0 1px'])])])
     out.append([('font-face', ['font-family:a,b'])])
     out.append([('font-face', ['font-family:a,b', 'unicode-range:U+1-FF'])])
     out.append([('charset', 'utf-8'), st])
